@@ -65,7 +65,7 @@ func (m *memoryStore) GetTokenResponse(ctx context.Context, sessionID string) (*
 	m.mu.Lock()
 	defer m.mu.Unlock()
 
-	s := m.sessions[sessionID]
+	s := m.live(sessionID)
 	if s == nil {
 		return nil, nil
 	}
@@ -92,7 +92,7 @@ func (m *memoryStore) GetAuthorizationState(ctx context.Context, sessionID strin
 	m.mu.Lock()
 	defer m.mu.Unlock()
 
-	s := m.sessions[sessionID]
+	s := m.live(sessionID)
 	if s == nil {
 		return nil, nil
 	}
@@ -109,7 +109,7 @@ func (m *memoryStore) ClearAuthorizationState(ctx context.Context, sessionID str
 	m.mu.Lock()
 	defer m.mu.Unlock()
 
-	if s := m.sessions[sessionID]; s != nil {
+	if s := m.live(sessionID); s != nil {
 		s.accessed = m.clock.Now()
 		s.authorizationState = nil
 	}
@@ -156,6 +156,24 @@ func (m *memoryStore) RemoveAllExpired(ctx context.Context) error {
 	return nil
 }
 
+// live returns the session stored under the given id, or nil when there is none or when it has outlived the
+// absolute or the idle session timeout, in which case it is dropped. Nothing else enforces the timeouts while
+// the service runs (RemoveAllExpired only reclaims memory), so every access goes through here.
+// The caller must hold the lock.
+func (m *memoryStore) live(sessionID string) *session {
+	s := m.sessions[sessionID]
+	if s == nil {
+		return nil
+	}
+	now := m.clock.Now()
+	if (m.absoluteSessionTimeout > 0 && s.added.Add(m.absoluteSessionTimeout).Before(now)) ||
+		(m.idleSessionTimeout > 0 && s.accessed.Add(m.idleSessionTimeout).Before(now)) {
+		delete(m.sessions, sessionID)
+		return nil
+	}
+	return s
+}
+
 // set the given session with the given setter function and record the access time.
 func (m *memoryStore) set(ctx context.Context, sessionID string, setter func(s *session)) {
 	log := m.log.Context(ctx).With("session-id", sessionID)
@@ -163,7 +181,7 @@ func (m *memoryStore) set(ctx context.Context, sessionID string, setter func(s *
 	m.mu.Lock()
 	defer m.mu.Unlock()
 
-	s := m.sessions[sessionID]
+	s := m.live(sessionID)
 	if s != nil {
 		s.accessed = m.clock.Now()
 		setter(s)
